@@ -1494,6 +1494,9 @@ def _unroll_literal_loops(fnode, unknown, cnt):
                 new.extend(_subst_names(b, sub) for b in clone(L.body))
             if not ok:
                 continue
+            if len(L.iter.elts) > 1:
+                # copies of one body: keep source-order keys monotonic across the iterations
+                _relocate(new, L.lineno, cnt, "unroll")
             block[i:i + 1] = new
             cnt.stats["loops_unrolled"] = cnt.stats.get("loops_unrolled", 0) + 1
             return True
@@ -1700,6 +1703,69 @@ def _ifexp_assign_to_if(fnode, unknown, cnt):
             b._inl = getattr(b, "_inl", ("ifexp", getattr(S, "lineno", 0)))
             block[i] = new
             cnt.stats["ifexp_assigns"] = cnt.stats.get("ifexp_assigns", 0) + 1
+            return True
+    return False
+
+
+def _get_store_to_setdefault(fnode, unknown, cnt):
+    """v = conv(D.get(K, DFLT)); D[K] = v      (v unknown, defined once)
+       ->  D.setdefault(K, DFLT); D[K] = conv(D[K'])   and later reads of v -> D[K']
+    (K' is K without a trailing `.value`: the enumerations of the repository are
+    str-valued, a member and its value address the same entry).  Only when no
+    other statement of the function stores D[K]."""
+    for block in _all_blocks(fnode):
+        for i in range(len(block) - 1):
+            A, B = block[i], block[i + 1]
+            if not (isinstance(A, ast.Assign) and len(A.targets) == 1 and isinstance(A.targets[0], ast.Name) and A.targets[0].id in unknown):
+                continue
+            v = A.targets[0].id
+            call = A.value
+            conv = None
+            if isinstance(call, ast.Call) and isinstance(call.func, ast.Name) and call.func.id in ("float", "int", "bool") and len(call.args) == 1 and not call.keywords:
+                conv, call = call.func.id, call.args[0]
+            if not (isinstance(call, ast.Call) and isinstance(call.func, ast.Attribute) and call.func.attr == "get" and isinstance(call.func.value, ast.Name) and len(call.args) == 2 and not call.keywords):
+                continue
+            D, K, dflt = call.func.value.id, call.args[0], call.args[1]
+            if not (isinstance(B, ast.Assign) and len(B.targets) == 1 and isinstance(B.targets[0], ast.Subscript) and isinstance(B.targets[0].value, ast.Name) and B.targets[0].value.id == D
+                    and ast.dump(B.targets[0].slice) == ast.dump(K) and isinstance(B.value, ast.Name) and B.value.id == v):
+                continue
+            if sum(1 for n in ast.walk(fnode) if isinstance(n, ast.Name) and n.id == v and isinstance(n.ctx, (ast.Store, ast.Del))) != 1:
+                continue
+            if not _pure(K, allow_alloc=False) or not _pure(dflt, allow_alloc=False):
+                continue
+            kread = K.value if isinstance(K, ast.Attribute) and K.attr == "value" else K
+            ktexts = {ast.dump(K), ast.dump(kread)}
+            others = [n for n in ast.walk(fnode) if isinstance(n, ast.Subscript) and isinstance(n.ctx, (ast.Store, ast.Del)) and isinstance(n.value, ast.Name) and n.value.id == D and ast.dump(n.slice) in ktexts and n is not B.targets[0]]
+            if others:
+                continue
+            inside = {id(n) for S in block[i + 2:] for n in ast.walk(S)}
+            if any(isinstance(n, ast.Name) and n.id == v and isinstance(n.ctx, ast.Load) and id(n) not in inside and n is not B.value for n in ast.walk(fnode)):
+                continue
+
+            def read():
+                return ast.Subscript(value=ast.Name(id=D, ctx=ast.Load()), slice=clone(kread), ctx=ast.Load())
+            sd = ast.Expr(value=ast.Call(func=ast.Attribute(value=ast.Name(id=D, ctx=ast.Load()), attr="setdefault", ctx=ast.Load()), args=[clone(K), clone(dflt)], keywords=[]))
+            ast.copy_location(sd, A)
+            newv = read()
+            if conv:
+                newv = ast.Call(func=ast.Name(id=conv, ctx=ast.Load()), args=[newv], keywords=[])
+            st = ast.Assign(targets=[B.targets[0]], value=newv, type_comment=None)
+            ast.copy_location(st, B)
+            for x in (sd, st):
+                if hasattr(A, "_inl"):
+                    x._inl = A._inl
+                ast.fix_missing_locations(x)
+            block[i], block[i + 1] = sd, st
+
+            class R(ast.NodeTransformer):
+                def visit_Name(self, node):
+                    if node.id == v and isinstance(node.ctx, ast.Load):
+                        return ast.copy_location(ast.fix_missing_locations(ast.copy_location(read(), node)), node)
+                    return node
+            for j, S in enumerate(block):
+                if j > i + 1:
+                    block[j] = R().visit(S)
+            cnt.stats["get_store_idiom"] = cnt.stats.get("get_store_idiom", 0) + 1
             return True
     return False
 
@@ -1961,7 +2027,64 @@ def compute_tuple_sizes(trees):
     TUPLE_SIZES.update({k: next(iter(v)) for k, v in sizes.items() if len(v) == 1 and None not in v})
 
 
+def _reintroduce_locals(fnode, known_locals, ref_defs, cnt):
+    """a local of the reference tree that no longer exists, while its reference
+    definition (a call expression) occurs exactly once, inside a simple statement
+    in which nothing with side effects is evaluated before it: name it again
+    (`k = <expr>` right before that statement)."""
+    if not ref_defs:
+        return
+    present = _names(fnode) | {a.arg for a in fnode.args.args + fnode.args.kwonlyargs}
+    for k in known_locals:
+        if k in present or k not in ref_defs:
+            continue
+        text = ref_defs[k]
+        try:
+            ref_e = ast.parse(text, mode="eval").body
+        except SyntaxError:
+            continue
+        if not isinstance(ref_e, ast.Call) or not _pure(ref_e, allow_alloc=True):
+            continue
+        hits = []
+        for block in _all_blocks(fnode):
+            for i, S in enumerate(block):
+                if not isinstance(S, (ast.Return, ast.Assign, ast.Expr, ast.AugAssign)):
+                    continue
+                for n in ast.walk(S):
+                    if isinstance(n, ast.Call) and ast.unparse(n) == text:
+                        hits.append((block, i, S, n))
+        total = sum(1 for n in ast.walk(fnode) if isinstance(n, ast.Call) and ast.unparse(n) == text)
+        if len(hits) != 1 or total != 1:
+            continue
+        block, i, S, occ = hits[0]
+        # every other call of the statement must enclose the occurrence (it is evaluated after it)
+        ok = True
+        for n in ast.walk(S):
+            if isinstance(n, ast.Call) and n is not occ and not any(x is occ for x in ast.walk(n)) and not any(x is n for x in ast.walk(occ)):
+                if not _pure(n, allow_alloc=True):
+                    ok = False
+        if not ok:
+            continue
+        new = ast.Assign(targets=[ast.Name(id=k, ctx=ast.Store())], value=clone(occ), type_comment=None)
+        ast.copy_location(new, S)
+        ast.fix_missing_locations(new)
+
+        class R(ast.NodeTransformer):
+            def visit_Call(self, node):
+                if node is occ:
+                    return ast.copy_location(ast.Name(id=k, ctx=ast.Load()), node)
+                return self.generic_visit(node)
+        block[i] = R().visit(S)
+        block.insert(i, new)
+        cnt.stats["locals_reintroduced"] = cnt.stats.get("locals_reintroduced", 0) + 1
+
+
 def _normalize_locals(fnode, known_locals, self_name, cnt, ref_defs=None):
+    _normalize_locals_core(fnode, known_locals, self_name, cnt, ref_defs)
+    _reintroduce_locals(fnode, known_locals, ref_defs, cnt)
+
+
+def _normalize_locals_core(fnode, known_locals, self_name, cnt, ref_defs=None):
     INT_NAMES.clear()
     for n in ast.walk(fnode):
         if isinstance(n, ast.For) and isinstance(n.iter, ast.Call) and isinstance(n.iter.func, ast.Name):
@@ -2008,6 +2131,8 @@ def _normalize_locals(fnode, known_locals, self_name, cnt, ref_defs=None):
         if _ifexp_assign_to_if(fnode, unknown, cnt):
             continue
         if _split_ranges(fnode, unknown, cnt):
+            continue
+        if _get_store_to_setdefault(fnode, unknown, cnt):
             continue
         if _sink_after_if(fnode, unknown, cnt):
             continue
@@ -2500,6 +2625,32 @@ def normalize_module(tree, modname):
             classes[node.name] = {it.name: it for it in node.body if isinstance(it, ast.FunctionDef) and (not it.decorator_list or _is_static(it))}
     unknown_top = {n: f for n, f in top.items() if n not in known_funcs and not f.decorator_list}
     unknown_meth = {c: {n: f for n, f in ms.items() if f"{c}.{n}" not in known_funcs} for c, ms in classes.items()}
+    # map(<unknown one-argument helper>, xs)  ->  (helper(p) for p in xs)
+    if unknown_top:
+        class _Map(ast.NodeTransformer):
+            def visit_Call(self, node):
+                self.generic_visit(node)
+                if (isinstance(node.func, ast.Name) and node.func.id == "map" and len(node.args) == 2 and not node.keywords
+                        and isinstance(node.args[0], ast.Name) and node.args[0].id in unknown_top):
+                    h = unknown_top[node.args[0].id]
+                    a = h.args
+                    if len(a.args) == 1 and not (a.vararg or a.kwarg or a.kwonlyargs or a.posonlyargs or a.defaults):
+                        var = a.args[0].arg
+                        if var not in self.taken:
+                            g = ast.GeneratorExp(
+                                elt=ast.Call(func=ast.Name(id=h.name, ctx=ast.Load()), args=[ast.Name(id=var, ctx=ast.Load())], keywords=[]),
+                                generators=[ast.comprehension(target=ast.Name(id=var, ctx=ast.Store()), iter=node.args[1], ifs=[], is_async=0)])
+                            cnt.stats["maps_expanded"] = cnt.stats.get("maps_expanded", 0) + 1
+                            return ast.fix_missing_locations(ast.copy_location(g, node))
+                return node
+        for fdef in [n for n in ast.walk(tree) if isinstance(n, ast.FunctionDef) and n.name not in unknown_top]:
+            if any(isinstance(n, ast.Name) and n.id == "map" for n in ast.walk(fdef)):
+                mt = _Map()
+                comp_ids = {id(x) for n in ast.walk(fdef) if isinstance(n, (ast.GeneratorExp, ast.ListComp, ast.SetComp, ast.DictComp)) for x in ast.walk(n)}
+                mt.taken = {n.id for n in ast.walk(fdef) if isinstance(n, ast.Name) and id(n) not in comp_ids} | {a.arg for a in fdef.args.args}
+                mt.taken -= set(unknown_top)
+                for i_, st_ in enumerate(fdef.body):
+                    fdef.body[i_] = mt.visit(st_)
     # unknown module-level literal constants
     unknown_glob = {}
     counts = {}
